@@ -10,8 +10,15 @@ EXTRA = {'C02': ['C01'], 'C03': ['C01'], 'C13': ['C08'], 'C11': ['C08'], 'C05': 
 
 
 def confirmed(c):
-    return c.get('applies') and c.get('demo_clean_exit') == 0 and c.get('demo_mutated_exit') == 1 \
-        and re.match(r'9 failed, 1480 passed', c.get('suite_summary', '')) and all(b in c.get('suite_failed', '') for b in BASE9)
+    if not (c.get('applies') and c.get('demo_clean_exit') == 0 and c.get('demo_mutated_exit') == 1):
+        return False
+    if re.match(r'9 failed, 1480 passed', c.get('suite_summary', '')) and all(b in c.get('suite_failed', '') for b in BASE9):
+        return True
+    # a change may make a baseline-failing test pass: accepted when every remaining failure is one of the 9 baseline failures and nothing else was lost
+    m = re.match(r'(\d+) failed, (\d+) passed', c.get('suite_summary', ''))
+    failed = [f for f in c.get('suite_failed', '').split(';') if f.strip()]
+    return bool(m) and int(m.group(1)) < 9 and int(m.group(1)) + int(m.group(2)) == 1489 and len(failed) == int(m.group(1)) \
+        and all(any(b.rstrip(';') in f for b in BASE9) for f in failed)
 
 
 def mutest(diff, pid):
@@ -45,7 +52,7 @@ def one(job):
     json.dump({'property': pid, 'round': {'b': 2, 'c': 3, 'd': 4, 'e': 5}.get(tag[3:], 1), 'summary': meta.get('summary'), 'needs': meta.get('needs'), 'files': meta.get('files'), 'rebased': meta.get('rebased'),
                'written_by': 'independent sub-agent given only the property text and a scratch worktree' + (' (plus one-line summaries of the changes already tried)' if tag[3:] else ''),
                'what_was_run': c.get('ran'), 'demo_clean_exit': c['demo_clean_exit'], 'demo_changed_exit': c['demo_mutated_exit'],
-               'suite_with_change': c['suite_summary'], 'suite_failures_are_the_baseline_set': True,
+               'suite_with_change': c['suite_summary'], 'suite_failures_are_the_baseline_set': bool(re.match(r'9 failed, 1480 passed', c['suite_summary'])), 'suite_failures_subset_of_baseline': True,
                'checks_run_against_it': caught,
                'caught_by': sorted(k for k, v in caught.items() if v['exit'] == 1)}, open(os.path.join(dest, 'meta.json'), 'w'), indent=1)
     return '%s %s kept; caught by %s' % (tag, n, sorted(k for k, v in caught.items() if v['exit'] == 1) or 'NONE')
